@@ -16,9 +16,8 @@ tables): two vectors share iff they stand over the same non-empty storage tuple.
 Identity-reuse stress after every history: brand-new 2- and 3-element vectors are built from fresh
 lists (kept alive so that freed identities are actually recycled) and each is written twice; a fresh
 vector shares storage with nothing, so any AliasError there is a spurious refusal.  The key names the
-operation that created the live object under whose stale registration the refusal happened (read
-from the tracker only to NAME the culprit and to decide how long to keep searching for the recycled
-identity; pass / fail is decided by the refused write alone).
+operation that left the live registration under which the refusal happened (the tracker is looked
+at only AFTER a refusal, to NAME the culprit; pass / fail is decided by the refused write alone).
 """
 import gc
 
@@ -174,53 +173,14 @@ def _culprits(storage_id, me, env, origin, replaced):
     return sorted(set(names)) or ['unattributed']
 
 
-def _stale(env, origin):
-    """SEARCH-EFFORT ONLY: {storage size: {stale storage identity: origin}} for live handles whose
-    registration is not under their current storage."""
-    out = {}
-    try:
-        from serif.alias_tracker import _ALIAS_TRACKER
-        live = {}
-        for n, o in env.items():
-            if isinstance(o, Vector):
-                live[id(o)] = (o, origin.get(n, n))
-                if isinstance(o, Table):
-                    for c in o._underlying:
-                        if isinstance(c, Vector):
-                            live.setdefault(id(c), (c, origin.get(n, n) + '.column'))
-        for sid, refs in _ALIAS_TRACKER._registry.items():
-            for r in refs:
-                o = r()
-                if o is not None and id(o) in live and live[id(o)][0] is o and id(o._underlying) != sid:
-                    out.setdefault(len(o._underlying), {})[sid] = live[id(o)][1]
-    except Exception:
-        return {}
-    return out
-
-
-def _stress(env, origin, replaced, hist, fails, base_n, deep_n):
-    stale = _stale(env, origin)
+def _stress(env, origin, replaced, hist, fails, n):
+    """Brand-new vectors over fresh lists, all kept alive (so that freed identities are really handed out
+    again), each written twice (the second write probes the identities handed out by the first)."""
     reported = set()
     for size in (2, 3):
-        want = dict(stale.get(size, {}))
-        hold = []
-        probe = []
-        n = deep_n if want else base_n
-        i = 0
-        while i < n:
-            w = Vector([1000 + i + j for j in range(size)])      # brand-new vector over a fresh list
-            hold.append(w)
-            if i < base_n:
-                probe.append(w)
-            elif id(w._underlying) in want:
-                probe.append(w)
-            i += 1
-            if want and id(w._underlying) in want:
-                want.pop(id(w._underlying))
-                if not want:
-                    n = max(i, base_n)
+        hold = [Vector([1000 + i + j for j in range(size)]) for i in range(n)]
         for rnd in (1, 2):
-            for w in probe:
+            for w in hold:
                 sid = id(w._underlying)
                 try:
                     w[0] = -rnd
@@ -235,7 +195,7 @@ def _stress(env, origin, replaced, hist, fails, base_n, deep_n):
                                           'write succeeds', 'AliasError'))
                 except Exception as e:
                     fails.append(Fail('C15:fresh-vector:write-raised', f'{hist}; fresh vector write raised {type(e).__name__}: {e}'))
-        del hold, probe
+        del hold
 
 
 def _note_replaced(env, st0, replaced, name):
@@ -331,8 +291,7 @@ def evaluate(case):
         elif not _write_step(env, src, name, origin, replaced, hist, fails):
             break
     hist = '; '.join(done)
-    base_n, deep_n = {1: (8, 600), 2: (8, 600), 3: (8, 600), 4: (8, 300)}.get(len(case['hist']), (8, 200))
-    _stress(env, origin, replaced, hist, fails, base_n, deep_n)
+    _stress(env, origin, replaced, hist, fails, 12 if len(case['hist']) <= 4 else 8)
     return fails
 
 
@@ -355,5 +314,5 @@ if __name__ == '__main__':
          bound=lambda tier: {'max_steps_full_alphabet': 3 if tier == 'quick' else 4,
                              'max_steps_core_alphabet(23 statements)': 4 if tier == 'quick' else 5,
                              'vector_len': 3, 'handles': 'x,y,z,t,u,tup',
-                             'stress_vectors_per_size': '8 written twice (+ search among up to 200-600 more while a stale registration of that size is live)'},
+                             'stress_vectors_per_size': '12 (8 for 5-step histories), all held alive, each written twice'},
          nontrivial=nontrivial)
